@@ -674,7 +674,7 @@ class History(object):
         from whoosh import fields
         rng, m = self.rng, self.m
         xs = sorted(f for f in sess.fields if f.startswith("x"))
-        if xs and rng.random() < 0.4:
+        if xs and rng.random() < 0.55:
             f = rng.choice(xs)
             self.op("remove_field", "remove_field(%r)" % f)
             self.call("remove_field", w.remove_field, f)
@@ -709,7 +709,7 @@ class History(object):
         if kind in ("plain", "cancel"):
             w = self.call("Index.writer", self.writer)
             try:
-                if rng.random() < 0.12:
+                if rng.random() < 0.15:
                     f, added = self.field_op(w, sess)
                     removed = None if added else f
                 self.random_ops(w, sess, nops)
@@ -794,6 +794,8 @@ class History(object):
         if not pairs:
             return False
         dn, sn = rng.choice(pairs)
+        if sn not in self.m.live:
+            self.ctx.count("c07.buffered_delete_of_buffered_doc")
         self.op("delete_docnum", "BufferedWriter.delete_document(%d) [serial %d]" % (dn, sn))
         self.call("BufferedWriter.delete_document", bw.delete_document, dn)
         sess.delete([sn])
